@@ -233,6 +233,8 @@ def authz_channel(ctx, w, table) -> Channel:
             problems.append("blocked-but-state-changed")
         if (lesser == "1") != py_lesser(row, role, flags):
             problems.append("lesser")
+        if obs["changed"] and not row["mutates"]:
+            problems.append("state-changed-on-a-row-the-translator-calls-read-only")
         if problems:
             ch.disagreements.append({"case": cj, "what": problems, "model": mo,
                                      "impl": {"entered": obs["entered"], "status": obs["status"],
